@@ -1,5 +1,7 @@
 #![recursion_limit = "512"]
 mod check;
+mod client;
+mod client_check;
 mod conc;
 mod conc_check;
 mod events;
